@@ -1,3 +1,93 @@
-/-  C04/Theorems — the ledger for property C04 (every theorem here is audited).  Placeholder. -/
+/-
+  C04/Theorems — the ledger for property C04.  Every `theorem` here is audited.
+-/
+import OttoVerif.C04.Spec
 namespace OttoVerif.C04.Thm
+open OttoVerif.C04 OttoVerif.C04.Spec
+
+/-! ### The walker (ast/walk.go) -/
+
+theorem nonNilEnters_append (xs ys : List Ev) : nonNilEnters (xs ++ ys) = nonNilEnters xs ++ nonNilEnters ys := by
+  induction xs with
+  | nil => rfl
+  | cons x xs ih =>
+    cases x with
+    | enter k => cases k <;> simp [nonNilEnters, ih]
+    | exit k => simp [nonNilEnters, ih]
+
+theorem nilEnters_append (xs ys : List Ev) : nilEnters (xs ++ ys) = nilEnters xs + nilEnters ys := by
+  induction xs with
+  | nil => simp [nilEnters]
+  | cons x xs ih =>
+    cases x with
+    | enter k => cases k <;> simp [nilEnters, ih] <;> omega
+    | exit k => simp [nilEnters, ih]
+
+mutual
+/-- `ast.Walk` enters every non-nil node exactly once, in depth-first pre-order — for EVERY tree shape. -/
+theorem walk_once : ∀ t : T, nonNilEnters (walk t) = nodes t
+  | .absent => rfl
+  | .tnil => rfl
+  | .node k a b l kids => by
+    simp only [walk, nodes, nonNilEnters, nonNilEnters_append, walkList_once kids]
+    simp [nonNilEnters]
+theorem walkList_once : ∀ ts : TS, nonNilEnters (walkList ts) = nodesList ts
+  | .nil => rfl
+  | .cons t ts => by
+    simp only [walkList, nodesList, nonNilEnters_append, walk_once t, walkList_once ts]
+end
+
+mutual
+/-- The visitor is handed a nil node exactly once per typed-nil pointer field: the deviation region
+    `walk_typed_nil` (`tnilCount t > 0`) is exact. -/
+theorem walk_nil_count : ∀ t : T, nilEnters (walk t) = tnilCount t
+  | .absent => rfl
+  | .tnil => rfl
+  | .node k a b l kids => by
+    simp only [walk, tnilCount, nilEnters, nilEnters_append, walkList_nil_count kids]
+    simp [nilEnters]
+theorem walkList_nil_count : ∀ ts : TS, nilEnters (walkList ts) = tnilCountList ts
+  | .nil => rfl
+  | .cons t ts => by
+    simp only [walkList, tnilCountList, nilEnters_append, walk_nil_count t, walkList_nil_count ts]
+end
+
+/-- Outside the deviation region the walker never hands a nil node to the visitor. -/
+theorem walk_never_nil (t : T) (h : tnilCount t = 0) : nilEnters (walk t) = 0 := by
+  rw [walk_nil_count, h]
+
+mutual
+/-- Enter/Exit events are properly bracketed (continuation form: walking `t` leaves the stack as it found it). -/
+theorem walk_balanced : ∀ (t : T) (rest : List Ev) (st : List (Option Kind)),
+    balanced (walk t ++ rest) st = balanced rest st
+  | .absent, _, _ => rfl
+  | .tnil, rest, st => by simp [walk, balanced]
+  | .node k a b l kids, rest, st => by
+    simp only [walk, List.cons_append, List.append_assoc, balanced]
+    rw [walkList_balanced kids]
+    simp [balanced]
+theorem walkList_balanced : ∀ (ts : TS) (rest : List Ev) (st : List (Option Kind)),
+    balanced (walkList ts ++ rest) st = balanced rest st
+  | .nil, _, _ => rfl
+  | .cons t ts, rest, st => by
+    simp only [walkList, List.append_assoc]
+    rw [walk_balanced t, walkList_balanced ts]
+end
+
+theorem walk_balanced_top (t : T) : balanced (walk t) [] = true := by
+  have := walk_balanced t [] []
+  simpa [balanced] using this
+
+/-- Kernel-checked witnesses of the deviation regions (the real trees of `break;`, `for(;;);`, `switch(x){case 1:}`, ``). -/
+def wBreak : T := .node .BranchStatement 1 0 5 (.cons .tnil .nil)
+example : nilEnters (walk wBreak) ≠ 0 := by decide
+def wEmptySeq : T := .node .SequenceExpression 0 0 0 .nil
+example : idx0 wEmptySeq = none := by decide
+def wEmptyCase : T := .node .CaseStatement 11 0 0 (.cons (.node .NumberLiteral 16 0 1 .nil) .nil)
+example : idx1 wEmptyCase = none := by decide
+def wEmptyProg : T := .node .Program 0 0 0 .nil
+example : idx0 wEmptyProg = none ∧ idx1 wEmptyProg = none := by decide
+/-- non-vacuity: a tree without typed nils whose walk is nil-free and complete -/
+example : tnilCount (.node .ExpressionStatement 0 0 0 (.cons (.node .Identifier 1 0 1 .nil) .nil)) = 0 := by decide
+
 end OttoVerif.C04.Thm
